@@ -374,7 +374,7 @@ class Tr:
         args = e.args
         if e.keywords and name not in ("random.choices",):
             c.err(e, "keyword arguments in kernel expressions")
-        if isinstance(f, ast.Attribute) and isinstance(f.value, ast.Name) and f.value.id == "self" and not self.in_init \
+        if isinstance(f, ast.Attribute) and isinstance(f.value, ast.Name) and f.value.id in ("self", c.cname) and not self.in_init \
                 and fld(f.attr) not in FIELD_TYPES:
             return self.inline_helper_expr(e, e)
         if name == "len" and len(args) == 1:
@@ -470,9 +470,35 @@ class Tr:
         if isinstance(s, (ast.Assign, ast.AnnAssign)):
             target = s.targets[0] if isinstance(s, ast.Assign) else s.target
             if isinstance(s, ast.Assign) and len(s.targets) != 1:
-                c.err(s, "multiple assignment targets")
+                # chained assignment `a = b = e`: e is evaluated once, then stored into the targets left to right
+                v, t = self.expr(s.value)
+                lines = self.flush([])
+                if t not in ("IntLit", "FloatLit", "EmptyList", "None"):
+                    tmp = c.fresh("rhs")
+                    lines.append(f"let {tmp} := {v}")
+                    v = tmp
+                for tg in s.targets:
+                    lines += self.assign(tg, v, t, s)
+                return lines
             if s.value is None:
                 c.err(s, "annotation without value")
+            if isinstance(target, (ast.Tuple, ast.List)):
+                # `a, b = e1, e2`: Python evaluates the whole right-hand side first, then stores left to right
+                if not isinstance(s.value, (ast.Tuple, ast.List)) or len(s.value.elts) != len(target.elts):
+                    c.err(s, "tuple assignment from something other than a tuple display of the same length")
+                lines, vals = [], []
+                for e_ in s.value.elts:
+                    v, t = self.expr(e_)
+                    lines = self.flush(lines)
+                    if t in ("IntLit", "FloatLit", "EmptyList", "None"):
+                        vals.append((v, t))
+                    else:
+                        tmp = c.fresh("rhs")
+                        lines.append(f"let {tmp} := {v}")
+                        vals.append((tmp, t))
+                for tg, (v, t) in zip(target.elts, vals):
+                    lines += self.assign(tg, v, t, s)
+                return lines
             v, t = self.expr(s.value)
             return self.flush(self.assign(target, v, t, s))
         if isinstance(s, ast.AugAssign):
@@ -503,7 +529,7 @@ class Tr:
             if isinstance(f, ast.Attribute) and f.attr == "__init__" and isinstance(f.value, ast.Call) \
                     and ast.unparse(f.value.func) == "super":
                 return self.inline_super(call, s)
-            if isinstance(f, ast.Attribute) and isinstance(f.value, ast.Name) and f.value.id == "self" and not self.in_init:
+            if isinstance(f, ast.Attribute) and isinstance(f.value, ast.Name) and f.value.id in ("self", c.cname) and not self.in_init:
                 return self.inline_helper_stmt(call, s)
             c.err(s, "unsupported expression statement")
         c.err(s, "unsupported statement")
@@ -594,9 +620,24 @@ class Tr:
         """translate one statement that may be an If (returns lines)"""
         c = self.ctx
         if isinstance(s, ast.If):
+            tst = s.test
+            # idiom `if p is None: p = <default>` on an Optional parameter: afterwards p is a plain number
+            if isinstance(tst, ast.Compare) and len(tst.ops) == 1 and isinstance(tst.ops[0], ast.Is) \
+                    and isinstance(tst.left, ast.Name) and isinstance(tst.comparators[0], ast.Constant) \
+                    and tst.comparators[0].value is None and c.locals.get(tst.left.id, (None, None))[1] == "OptK" \
+                    and not s.orelse and len(s.body) == 1 and isinstance(s.body[0], ast.Assign) and len(s.body[0].targets) == 1 \
+                    and isinstance(s.body[0].targets[0], ast.Name) and s.body[0].targets[0].id == tst.left.id:
+                name = tst.left.id
+                opt = c.locals[name][0]
+                dv, dt = self.expr(s.body[0].value)
+                pre = self.flush([])
+                if pre:
+                    c.err(s, "random draw in the default of an Optional parameter")
+                ln = c.fresh(name)
+                c.locals[name] = (ln, "K")
+                return [f"let {ln} : K := match {opt} with | some {name}_v => {name}_v | none => {cast(dv, dt, 'K', c, s)}"]
             # `if p is not None:` / `if p is None:` on an Optional parameter becomes a match that narrows p
             narrow = None
-            tst = s.test
             if isinstance(tst, ast.Compare) and len(tst.ops) == 1 and isinstance(tst.ops[0], (ast.Is, ast.IsNot)) \
                     and isinstance(tst.left, ast.Name) and isinstance(tst.comparators[0], ast.Constant) \
                     and tst.comparators[0].value is None and c.locals.get(tst.left.id, (None, None))[1] == "OptK":
@@ -725,13 +766,14 @@ class Tr:
 
     def bind_helper_args(self, fn, call, node):
         c = self.ctx
-        params = [a.arg for a in fn.args.args[1:]] + [a.arg for a in fn.args.kwonlyargs]
+        skip = 1 if fn.args.args and fn.args.args[0].arg in ("self", "cls") else 0    # @staticmethod helpers have no receiver
+        params = [a.arg for a in fn.args.args[skip:]] + [a.arg for a in fn.args.kwonlyargs]
         bound = {}
         for pn, a in zip(params, call.args):
             bound[pn] = self.expr(a)
         for kw in call.keywords:
             bound[kw.arg] = self.expr(kw.value)
-        pos = fn.args.args[1:]
+        pos = fn.args.args[skip:]
         for a, d in zip(pos[len(pos) - len(fn.args.defaults):], fn.args.defaults):
             if a.arg not in bound:
                 bound[a.arg] = self.expr(d)
@@ -851,13 +893,17 @@ def translate_class(src, cname, fl=False):
         fn = next(it for it in cn.body if isinstance(it, ast.FunctionDef) and it.name == "__init__")
         for n in ast.walk(fn):
             if isinstance(n, (ast.Assign, ast.AnnAssign)):
-                tg = n.targets[0] if isinstance(n, ast.Assign) else n.target
-                if isinstance(tg, ast.Attribute) and isinstance(tg.value, ast.Name) and tg.value.id == "self":
-                    f = fld(tg.attr)
-                    if f not in FIELD_TYPES:
-                        raise Unsupported(f"{rel}: field {tg.attr} is not in the translator schema")
-                    if f not in fields:
-                        fields.append(f)
+                tgs = list(n.targets) if isinstance(n, ast.Assign) else [n.target]      # chained assignment: several targets
+                flat = []
+                for tg in tgs:
+                    flat += list(tg.elts) if isinstance(tg, (ast.Tuple, ast.List)) else [tg]   # tuple assignment
+                for tg in flat:
+                    if isinstance(tg, ast.Attribute) and isinstance(tg.value, ast.Name) and tg.value.id == "self":
+                        f = fld(tg.attr)
+                        if f not in FIELD_TYPES:
+                            raise Unsupported(f"{rel}: field {tg.attr} is not in the translator schema")
+                        if f not in fields:
+                            fields.append(f)
     ctx = Ctx(src, cname, rel)
     tyargs = " ".join(f"({p} : Type)" for p in tparams)
     tyapp = " ".join(tparams)
@@ -1050,9 +1096,23 @@ def translate_expr_kernel(repo, kname):
     if len(fn) != 1:
         raise Unsupported(f"{spec['file']}: method {spec['method']} not found")
     rets = [n for n in ast.walk(fn[0]) if isinstance(n, ast.Return)]
-    if len(rets) != 1 or not isinstance(rets[0].value, ast.DictComp):
-        raise Unsupported(f"{spec['file']}:{fn[0].lineno}: {spec['method']} does not return one dict comprehension")
-    value = rets[0].value.value
+    value = None
+    if len(rets) == 1 and isinstance(rets[0].value, ast.DictComp) and len(rets[0].value.generators) == 1 \
+            and ast.unparse(rets[0].value.generators[0].iter) == "self.feature_names" and not rets[0].value.generators[0].ifs \
+            and ast.unparse(rets[0].value.key) == ast.unparse(rets[0].value.generators[0].target):
+        value = rets[0].value.value
+    elif len(rets) == 1 and isinstance(rets[0].value, ast.Name):
+        # the same as an explicit loop: `out = {}; for feature_name in self.feature_names: out[feature_name] = <expr>; return out`
+        out = rets[0].value.id
+        body = [n for n in fn[0].body if not (isinstance(n, ast.Expr) and isinstance(n.value, ast.Constant)) and not isinstance(n, ast.Assert)]
+        if len(body) == 3 and isinstance(body[0], ast.Assign) and ast.unparse(body[0]) == f"{out} = {{}}" and isinstance(body[1], ast.For) \
+                and ast.unparse(body[1].iter) == "self.feature_names" and isinstance(body[1].target, ast.Name) and not body[1].orelse \
+                and len(body[1].body) == 1 and isinstance(body[1].body[0], ast.Assign) \
+                and ast.unparse(body[1].body[0].targets[0]) == f"{out}[{body[1].target.id}]":
+            value = body[1].body[0].value
+    if value is None:
+        raise Unsupported(f"{spec['file']}:{fn[0].lineno}: {spec['method']} is neither one dict comprehension over self.feature_names nor "
+                          f"the equivalent fill-a-dict loop")
 
     class Dummy:
         classes = {}
